@@ -144,6 +144,19 @@ theorem taskStep_readGet {k : Nat} (h : t.pc = .readGet k) :
         task := settle now t.prog { t with results := t.results ++ [store k], reads := t.reads ++ [store k] } } := by
   simp only [taskStep, h]
 
+theorem taskStep_expGet {k : Nat} (h : t.pc = .expGet k) :
+    taskStep tid now store lock t =
+      { store := store, lock := lock,
+        task := settle now (expBuffer t k (store k)).prog (expBuffer t k (store k)) } := by
+  simp only [taskStep, h]
+
+theorem taskStep_existsGet {k : Nat} {v : Int} {e : Bool} (h : t.pc = .existsGet k v e) :
+    taskStep tid now store lock t =
+      { store := store, lock := lock,
+        task := settle now (setxApply { t with reads := t.reads ++ [store k] } k v e (store k).isSome).prog
+                  (setxApply { t with reads := t.reads ++ [store k] } k v e (store k).isSome) } := by
+  simp only [taskStep, h]
+
 theorem taskStep_direct {c : Cmd} (h : t.pc = .direct c) :
     taskStep tid now store lock t = directStep now store lock t c := by
   simp only [taskStep, h]
